@@ -13,9 +13,22 @@ Everything a worker returns is plain Python (picklable, JSON-able).
 from __future__ import annotations
 
 import inspect
+import threading
+import time
 import zlib
 
 import numpy as np
+
+_LAUNCH = threading.Lock()
+
+
+def spaced_tlc(ctx, *args, **kw):
+    """ctx.tlc for concurrent use: launches are spaced by >= 30 ms so that the run-local metadir names
+    (which contain the launch time in ms) can never coincide."""
+    with _LAUNCH:
+        time.sleep(0.03)
+    return ctx.tlc(*args, **kw)
+
 
 GEO11 = ('position', 'source_position', 'sample_position', 'incident_beam', 'scattered_beam',
          'L1', 'L2', 'Ltotal', 'two_theta', 'incident_energy', 'final_energy')
@@ -398,6 +411,403 @@ def run_case(c, seed):
 
 
 def run_cases(args):
+    """Worker entry: `lines` are JSON records emitted by Emit_ConvertGraph.  Returns a compact,
+    picklable summary per case plus the distinct reported graphs of this chunk:
+        (o, t, s, m, x, expected_outcome, prov_pairs, g, copy, da, ds)
+    g = index into the chunk's graph list, -1 = RuntimeError, -2 = other exception;
+    da / ds = (out, added, val, same, has, worst)."""
+    import json
+    import warnings
+
+    lines, seed = args
+    warnings.simplefilter('ignore')
+    graphs, gindex, out = [], {}, []
+    for line in lines:
+        c = json.loads(line)
+        try:
+            r = run_case(c, seed)
+        except Exception as e:  # noqa: BLE001  (harness problem, not a verdict)
+            out.append(('harness_error', {k: c[k] for k in ('o', 't', 's', 'm', 'x')}, repr(e)[:300]))
+            continue
+        if r['dg'] == 'ok':
+            g = gindex.get(r['graph'])
+            if g is None:
+                g = gindex[r['graph']] = len(graphs)
+                graphs.append(r['graph'])
+        else:
+            g = -1 if r['dg'] == 'RuntimeError' else -2
+        obs = tuple((r[k]['out'], r[k]['added'], r[k]['val'], r[k]['same'], r[k]['has'], r[k]['worst'])
+                    for k in ('da', 'ds'))
+        out.append((c['o'], c['t'], c['s'], c['m'], c['x'], c['outcome'], r['prov'], g, r['copy'], obs[0], obs[1]))
+    return out, graphs
+
+
+# =========================================================================== C06: event mode
+# (origin, target, scatter, inelastic coordinate)
+EVENT_VARIANTS = (
+    ('tof', 'wavelength', True, None), ('tof', 'energy', True, None), ('tof', 'dspacing', True, None),
+    ('tof', 'Q', True, None), ('tof', 'Qx', True, None), ('tof', 'Q_vec', True, None),
+    ('tof', 'energy_transfer', True, 'incident_energy'), ('tof', 'energy_transfer', True, 'final_energy'),
+    ('tof', 'wavelength', False, None), ('tof', 'energy', False, None),
+    ('wavelength', 'energy', True, None), ('wavelength', 'dspacing', True, None),
+    ('wavelength', 'Q', True, None), ('wavelength', 'Q_vec', True, None),
+    ('energy', 'wavelength', True, None), ('energy', 'dspacing', True, None),
+    ('Q', 'wavelength', True, None),
+)
+EVENT_DTYPES = ('float64', 'float32', 'int64', 'int32')
+GEOM_MODES = ('positions', 'derived', 'beams')
+
+
+def _distinct(rng, n, lo, hi, dtype, near=None):
+    """n pairwise distinct values of the given dtype in [lo, hi]; with near = (a, b) about half of the
+    values are drawn from [a, b] instead (used to put events around the unphysical boundary t0)"""
+    if n == 0:
+        return np.zeros(0, dtype=dtype)
+    for _ in range(50):
+        v = rng.uniform(lo, hi, size=n)
+        if near is not None:
+            pick = rng.random(n) < 0.5
+            v = np.where(pick, rng.uniform(near[0], near[1], size=n), v)
+        if dtype.startswith('int'):
+            v = np.round(v).astype(dtype)
+            seen, free = set(), None
+            for i in range(n):                      # replace duplicates by unused integers of the range
+                if int(v[i]) in seen:
+                    if free is None:
+                        free = [x for x in rng.permutation(np.arange(int(lo), int(hi) + 1)).tolist()
+                                if x not in set(v.tolist())]
+                    if not free:
+                        break
+                    v[i] = free.pop()
+                seen.add(int(v[i]))
+        else:
+            v = v.astype(dtype)
+        if len(set(v.tolist())) == n:
+            return v
+    raise RuntimeError('could not draw distinct values')
+
+
+def pixel_dims(kind, o):
+    return {'p': ('spectrum',), 'pt': ('spectrum',), 'pp': ('y', 'x')}[kind]
+
+
+def build_binned(lay, var, ev_dtype, geom, seed):
+    """A real binned DataArray for layout `lay` (dict kind,R,C,N,bg,en) and the variant.
+    Returns (da, info) where info holds the dense 'slot table' inputs."""
+    import scipp as sc
+
+    o, t, scatter, inel = var
+    kind, R, C, N = lay['kind'], lay['R'], lay['C'], lay['N']
+    rng = np.random.default_rng([seed & 0xFFFFFFFF, zlib.crc32(json_key(lay, var, ev_dtype, geom))])
+    lo, hi = {'tof': (300.0, 5.0e4) if inel else (1.0e3, 5.0e4), 'wavelength': (1.0, 300.0),
+              'energy': (2.0, 400.0), 'Q': (1.0, 300.0)}[o]
+    wdt = 'float32' if ev_dtype == 'float32' else 'float64'
+    weights = (np.arange(1, N + 1) + rng.uniform(0.1, 0.9, size=N)).astype(wdt)
+    variances = (np.arange(1, N + 1) * 0.5 + rng.uniform(0.01, 0.4, size=N)).astype(wdt)
+    # geometry first (the event coordinate of inelastic cases is placed around t0, see below)
+    pdims = pixel_dims(kind, o)
+    pshape = {'p': (R,), 'pt': (R,), 'pp': (R, C)}[kind]
+    npix = int(np.prod(pshape))
+    sample = rng.uniform(-0.5, 0.5, size=3)
+    source = sample + np.array([0.0, 0.0, -1.0]) * rng.uniform(5.0, 20.0) + rng.uniform(-0.3, 0.3, size=3)
+    pos = sample + rng.uniform(0.5, 4.0, size=(npix, 1)) * _rand_dirs(rng, npix)
+    e_in = float(rng.uniform(20.0, 100.0))
+    e_fin = rng.uniform(20.0, 100.0, size=npix)
+    near = None
+    if inel:
+        # input generation only (not an oracle): where the documented NaN boundary t0 lies, so that
+        # about half of the events are unphysical / close to the boundary in some pixel
+        _, mn, mev = _consts()
+        if inel == 'incident_energy':
+            t0 = np.array([np.linalg.norm(sample - source) * np.sqrt(mn / (2 * e_in * mev)) * 1e6])
+        else:
+            t0 = np.linalg.norm(pos - sample, axis=-1) * np.sqrt(mn / (2 * e_fin * mev)) * 1e6
+        near = (0.3 * float(t0.min()), 1.4 * float(t0.max()))
+    ovals = _distinct(rng, N, lo, hi, ev_dtype, near)
+    table = sc.DataArray(
+        sc.array(dims=['event'], values=weights, variances=variances, unit='counts', dtype=wdt),
+        coords={o: sc.array(dims=['event'], values=ovals, unit=ORIGIN_UNIT[o], dtype=ev_dtype),
+                'extra': sc.array(dims=['event'], values=np.arange(1, N + 1), unit='s', dtype='int64')},
+        masks={'em': sc.array(dims=['event'], values=rng.random(N) < 0.3)})
+    if kind == 'p':
+        bdims, bshape = ['spectrum'], (R,)
+    elif kind == 'pt':
+        bdims, bshape = ['spectrum', o], (R, C)
+    else:
+        bdims, bshape = ['y', 'x'], (R, C)
+    begin = sc.array(dims=bdims, values=np.array(lay['bg'], dtype='int64').reshape(bshape), unit=None)
+    end = sc.array(dims=bdims, values=np.array(lay['en'], dtype='int64').reshape(bshape), unit=None)
+    data = sc.bins(begin=begin, end=end, dim='event', data=table)
+    fdt = 'float32' if (ev_dtype == 'float32' and rng.integers(0, 2)) else 'float64'
+
+    def perpix(v, unit, dtype='float64'):
+        return sc.array(dims=list(pdims), values=np.asarray(v).reshape(pshape), unit=unit, dtype=dtype)
+
+    def vecpix(v):
+        return sc.vectors(dims=list(pdims), values=np.asarray(v).reshape(*pshape, 3), unit='m')
+
+    geo = {}
+    if geom == 'positions':
+        geo['position'] = vecpix(pos)
+        geo['source_position'] = sc.vector(source, unit='m')
+        geo['sample_position'] = sc.vector(sample, unit='m')
+    else:
+        sb = pos - sample
+        geo['incident_beam'] = sc.vector(sample - source, unit='m')
+        geo['scattered_beam'] = vecpix(sb)
+        l1 = float(np.linalg.norm(sample - source))
+        l2 = np.linalg.norm(sb, axis=-1)
+        geo['L1'] = sc.scalar(l1, unit='m', dtype=fdt)
+        geo['L2'] = perpix(l2, 'm', fdt)
+        geo['Ltotal'] = perpix(l1 + l2 if scatter else np.linalg.norm(pos - source, axis=-1), 'm', fdt)
+        geo['two_theta'] = perpix(_angle(np.broadcast_to(sample - source, sb.shape), sb), 'rad', fdt)
+        if not scatter:
+            for k in ('incident_beam', 'scattered_beam', 'L1', 'L2', 'two_theta'):
+                geo.pop(k)
+        elif geom == 'beams':   # only the two beams: lengths and angle are computed from supplied vectors
+            for k in ('L1', 'L2', 'Ltotal', 'two_theta'):
+                geo.pop(k)
+    if inel == 'incident_energy':
+        geo['incident_energy'] = sc.scalar(e_in, unit='meV', dtype=fdt)
+    elif inel == 'final_energy':
+        geo['final_energy'] = perpix(e_fin, 'meV', fdt)
+    coords = dict(geo)
+    edges = None
+    if kind == 'pt':
+        edges = np.sort(_distinct(rng, C + 1, lo, hi, 'float64', near))
+        coords[o] = sc.array(dims=[o], values=edges, unit=ORIGIN_UNIT[o])
+    coords['aux'] = sc.array(dims=[pdims[0]], values=rng.uniform(0, 1, size=pshape[0]), unit='K')
+    coords['run'] = sc.scalar(int(rng.integers(1, 10**6)), unit=None)
+    masks = {'pm': sc.array(dims=list(pdims), values=(rng.random(pshape) < 0.3))}
+    if kind == 'pt':
+        masks['bm'] = sc.array(dims=bdims, values=(rng.random(bshape) < 0.3))
+    da = sc.DataArray(data, coords=coords, masks=masks)
+    info = {'geo': geo, 'ovals': ovals, 'edges': edges, 'pdims': pdims, 'pshape': pshape, 'bdims': bdims,
+            'bshape': bshape, 'weights': weights, 'variances': variances}
+    return da, info
+
+
+def json_key(lay, var, ev_dtype, geom):
+    return repr((lay['kind'], lay['R'], lay['C'], lay['N'], tuple(lay['bg']), tuple(lay['en']), var, ev_dtype,
+                 geom)).encode()
+
+
+def _rand_dirs(rng, n):
+    v = rng.normal(size=(n, 3))
+    return v / np.linalg.norm(v, axis=-1, keepdims=True)
+
+
+def _np_in_order(var, order):
+    """values of `var` as an array whose leading axes follow `order` (missing dims get size 1);
+    element axes (vectors) stay last"""
+    dims = list(var.dims)
+    v = np.asarray(var.values)
+    nd = len(dims)
+    present = [d for d in order if d in dims]
+    if set(present) != set(dims):
+        raise ValueError(f'unexpected dims {dims} for order {order}')
+    v = np.transpose(v, [dims.index(d) for d in present] + list(range(nd, v.ndim)))
+    shape = [var.sizes[d] if d in dims else 1 for d in order] + list(v.shape[len(present):])
+    return v.reshape(shape)
+
+
+def _canon(x):
+    """hashable exact key of one (scalar or vector) element: NaN == NaN, -0.0 == 0.0"""
+    a = np.atleast_1d(x)
+    return tuple('nan' if (c != c) else float(c) for c in a.tolist())
+
+
+def dense_table(info, var, o, slot_vals, slot_dim, names):
+    """Dense conversion *of the implementation* for the (pixel x slot) table: a dense DataArray with
+    the same per-pixel geometry and the slot values along `slot_dim`.  Returns name -> (array of
+    shape pshape + (nslot,) [+ (3,)], unit string, dtype string)."""
+    import scipp as sc
+    import scippneutron as scn
+
+    _, t, scatter, _ = var
+    pdims, pshape = info['pdims'], info['pshape']
+    n = len(slot_vals)
+    data = sc.zeros(dims=[*pdims, slot_dim], shape=[*pshape, n], unit='counts')
+    coords = {k: v.copy() for k, v in info['geo'].items()}   # private copies: the oracle shares nothing
+    coords[o] = sc.array(dims=[slot_dim], values=slot_vals, unit=ORIGIN_UNIT[o], dtype=slot_vals.dtype)
+    dense = sc.DataArray(data, coords=coords)
+    conv = scn.convert(dense, origin=o, target=t, scatter=scatter)
+    out = {}
+    other = [d for d in conv.dims if d not in pdims]
+    sdim = other[0] if other else slot_dim   # transform_coords may have renamed the slot dimension
+    for name in names:
+        if name not in conv.coords:
+            continue
+        c = conv.coords[name]
+        arr = _np_in_order(c, [*pdims, sdim])
+        full = [*pshape, n] + list(arr.shape[len(pdims) + 1:])
+        out[name] = (np.broadcast_to(arr, full), str(c.unit), str(c.dtype))
+    return out
+
+
+def _flat_bins(binned_var, in_dims):
+    """(begin, end, buffer DataArray) of a binned variable with begin/end flattened in the row-major
+    order of the *input* dims (a renamed dimension is matched by position)."""
+    cons = binned_var.bins.constituents
+    b, e = cons['begin'], cons['end']
+    if len(b.dims) != len(in_dims):
+        raise ValueError('bin grid rank changed')
+    order = []
+    extra = [d for d in b.dims if d not in in_dims]
+    for d in in_dims:
+        if d in b.dims:
+            order.append(d)
+        elif len(extra) == 1:
+            order.append(extra[0])
+        else:
+            raise ValueError(f'cannot match dims {b.dims} to {in_dims}')
+    bb = _np_in_order(b, order).reshape(-1)
+    ee = _np_in_order(e, order).reshape(-1)
+    return bb, ee, cons['data']
+
+
+def run_event_case(case, seed):
+    """Execute one event-mode conversion and project the result to ids (see Trace_EventMode.tla)."""
+    import scipp as sc
+    import scippneutron as scn
+
+    lay, var, ev_dtype, geom = case['lay'], tuple(case['var']), case['dtype'], case['geom']
+    o, t, scatter, inel = var
+    kind, R, C, N = lay['kind'], lay['R'], lay['C'], lay['N']
+    B = R * C
+    ev = {'ev': 'conv', 'tid': case['tid'], 'kind': kind, 'R': R, 'C': C, 'N': N, 'bg': list(lay['bg']),
+          'en': list(lay['en']), 'out': 'ok', 'bins': [], 'edges': [],
+          'same': {'masks': True, 'evmasks': True, 'coords': True, 'evcoord': True, 'input': True}}
+    meta = {'variant': f"{o}->{t}, scatter={scatter}" + (f", {inel}" if inel else ''), 'dtype': ev_dtype,
+            'geom': geom, 'kind': kind, 'note': None, 'new_event_coords': []}
+    da, info = build_binned(lay, var, ev_dtype, geom, seed)
+    snap = da.copy(deep=True)
+    snap_buf = da.bins.constituents['data'].copy(deep=True)
+    # --- the dense reference of the implementation (pixel x slot table, pixel x edge table)
+    try:
+        probe = dense_table(info, var, o, info['ovals'], 'slot', ())
+        del probe
+        dense_ok = True
+    except Exception as e:  # noqa: BLE001
+        dense_ok = False
+        meta['note'] = f'dense conversion refuses these operands: {type(e).__name__}'
+    try:
+        out = scn.convert(da, origin=o, target=t, scatter=scatter)
+    except Exception as e:  # noqa: BLE001
+        ev['out'] = 'raised' if dense_ok else 'unsupported'
+        meta['exc'] = repr(e)[:300]
+        return ev, meta
+    if not dense_ok:
+        ev['out'] = 'unsupported'
+        return ev, meta
+    in_dims = list(da.dims)
+    try:
+        ob, oe, obuf = _flat_bins(out.data, in_dims)
+        ib, ie, ibuf = _flat_bins(snap.data, in_dims)
+    except Exception as e:  # noqa: BLE001
+        ev['out'] = 'raised'
+        meta['exc'] = 'result is not a binned array over the same grid: ' + repr(e)[:200]
+        return ev, meta
+    new_ev = [n for n in obuf.coords if n not in ibuf.coords]
+    meta['new_event_coords'] = sorted(new_ev)
+    names = sorted(set(new_ev) | {t})
+    tab = dense_table(info, var, o, info['ovals'], 'slot', names)
+    # id dictionaries
+    npix = int(np.prod(info['pshape']))
+    lookup = {}
+    for name, (arr, unit, dtype) in tab.items():
+        a = arr.reshape(npix, N, *arr.shape[len(info['pshape']) + 1:])
+        d = {}
+        for p in range(npix):
+            for i in range(N):
+                d.setdefault(_canon(a[p, i]), []).append([p + 1, i + 1])
+        lookup[name] = (d, unit, dtype)
+    wmap = {float(w): i + 1 for i, w in enumerate(info['weights'].tolist())}
+    vmap = {float(v): i + 1 for i, v in enumerate(info['variances'].tolist())}
+    has_var = obuf.variances is not None
+    wv = np.asarray(obuf.values)
+    vv = np.asarray(obuf.variances) if has_var else None
+    xv = np.asarray(obuf.coords['extra'].values) if 'extra' in obuf.coords else None
+    if len(ob) != B:
+        ev['bins'] = []
+        return ev, meta
+    # the property does not promise that the origin event coordinate is kept; if it is, it is unchanged
+    keeps_origin = o in obuf.coords
+    evcoord_ok = (not keeps_origin) or (str(obuf.coords[o].unit) == str(ibuf.coords[o].unit)
+                                        and obuf.coords[o].dtype == ibuf.coords[o].dtype)
+    evmask_ok = set(obuf.masks.keys()) == set(ibuf.masks.keys())
+    for b in range(B):
+        lo_, hi_ = int(ob[b]), int(oe[b])
+        rec = {'r': [], 'w': [], 'v': [], 'x': []}
+        for k in range(lo_, hi_):
+            rec['w'].append(wmap.get(float(wv[k]), 0) if str(obuf.dtype) == str(ibuf.dtype) else 0)
+            rec['v'].append(vmap.get(float(vv[k]), 0) if has_var else 0)
+            rec['x'].append(int(xv[k]) if xv is not None else 0)
+            # the event is accepted for id <<p, i>> iff *every* new event coordinate has the dense value
+            cands = None
+            for name in names:
+                if name not in obuf.coords or name not in lookup:
+                    cands = set()
+                    break
+                d, unit, dtype = lookup[name]
+                c = obuf.coords[name]
+                if str(c.unit) != unit or str(c.dtype) != dtype:
+                    cands = set()
+                    break
+                got = {tuple(x) for x in d.get(_canon(np.asarray(c.values)[k]), [])}
+                cands = got if cands is None else (cands & got)
+            rec['r'].append(sorted(map(list, cands or ())))
+        ev['bins'].append(rec)
+        if evcoord_ok and keeps_origin:
+            n_in = int(ie[b]) - int(ib[b])
+            a = np.asarray(obuf.coords[o].values)[lo_:hi_]
+            bb = np.asarray(ibuf.coords[o].values)[int(ib[b]):int(ie[b])]
+            if hi_ - lo_ != n_in or not np.array_equal(a, bb):
+                evcoord_ok = False
+        if evmask_ok:
+            for mname in ibuf.masks.keys():
+                a = np.asarray(obuf.masks[mname].values)[lo_:hi_]
+                bb = np.asarray(ibuf.masks[mname].values)[int(ib[b]):int(ie[b])]
+                if not np.array_equal(a, bb):
+                    evmask_ok = False
+    ev['same']['evcoord'] = bool(evcoord_ok)
+    ev['same']['evmasks'] = bool(evmask_ok)
+    # --- bin-edge coordinate: same function
+    if kind == 'pt':
+        et = dense_table(info, var, o, info['edges'], 'edge', [t])
+        if t in out.coords and t in et:
+            arr, unit, dtype = et[t]
+            c = out.coords[t]
+            a = arr.reshape(R, C + 1, *arr.shape[2:])
+            d = {}
+            for p in range(R):
+                for j in range(C + 1):
+                    d.setdefault(_canon(a[p, j]), []).append([p + 1, j + 1])
+            try:
+                other = [x for x in c.dims if x != 'spectrum']
+                g = _np_in_order(c, ['spectrum', other[0]] if other else ['spectrum', '_'])
+                g = np.broadcast_to(g, (R, C + 1, *g.shape[2:]))
+                good = str(c.unit) == unit and str(c.dtype) == dtype
+                ev['edges'] = [[sorted(d.get(_canon(g[p, j]), [])) if good else [] for j in range(C + 1)]
+                               for p in range(R)]
+            except Exception as e:  # noqa: BLE001
+                meta['edge_note'] = repr(e)[:200]
+                ev['edges'] = []
+    # --- UNCHANGED clauses from snapshots
+    def vals_equal(a, b):
+        return str(a.unit) == str(b.unit) and a.dtype == b.dtype and a.shape == b.shape and \
+            np.array_equal(np.asarray(a.values), np.asarray(b.values))
+
+    ev['same']['masks'] = set(out.masks.keys()) == set(snap.masks.keys()) and all(
+        vals_equal(out.masks[m], snap.masks[m]) for m in snap.masks.keys())
+    ev['same']['coords'] = all(n in out.coords and vals_equal(out.coords[n], snap.coords[n])
+                               for n in ('aux', 'run'))
+    ev['same']['input'] = bool(sc.identical(da, snap)) and bool(
+        sc.identical(da.bins.constituents['data'], snap_buf))
+    return ev, meta
+
+
+def run_event_cases(args):
     cases, seed = args
     import warnings
 
@@ -405,7 +815,9 @@ def run_cases(args):
     out = []
     for c in cases:
         try:
-            out.append(run_case(c, seed))
+            out.append(run_event_case(c, seed))
         except Exception as e:  # noqa: BLE001  (harness problem, not a verdict)
-            out.append({'c': {k: c[k] for k in ('o', 't', 's', 'm', 'x')}, 'harness_error': repr(e)[:300]})
+            import traceback
+
+            out.append(({'tid': c['tid'], 'harness_error': repr(e)[:300] + traceback.format_exc()[-600:]}, {}))
     return out
